@@ -146,6 +146,7 @@ type Exec struct {
 	diverged   string
 	visit      func(post sigKey, pre int) bool // called after every decision at or beyond the end of the prefix; true = state already expanded with at least this budget: stop
 	clockVer   uint64
+	eager      []*Task
 	delayMode  bool // deviation = delay w.r.t. the deterministic default scheduler (instead of preemption)
 	keyRunning bool // bounded search: the running task is part of the state (it decides what is a preemption)
 	aborted    bool
@@ -303,6 +304,11 @@ func (e *Exec) spawn(parent *Task, free bool, f func()) *Task {
 	}
 	t.pend = &op{kind: opStart}
 	e.tasks = append(e.tasks, t)
+	if free {
+		// an environment task runs up to its first scheduling point as part of the transition that
+		// spawned it: only its visible action is a schedulable choice, not its start
+		e.eager = append(e.eager, t)
+	}
 	go func() {
 		<-t.wake
 		defer func() {
@@ -755,6 +761,17 @@ func (e *Exec) run(harness func(*H)) {
 			if e.ending {
 				break
 			}
+		}
+		for len(e.eager) > 0 && !e.ending {
+			t := e.eager[0]
+			e.eager = e.eager[1:]
+			if t.done || t.pend == nil || t.pend.kind != opStart {
+				continue
+			}
+			e.sig = e.sig.add(evHash(t.Name, t.step+1, "start", -1, nil, nil))
+			t.step++
+			t.pend = nil
+			e.resume(t)
 		}
 		e.cur = nil
 	}
